@@ -207,10 +207,40 @@ struct Shared {
     ran: std::sync::Mutex<std::collections::HashSet<u64>>,
 }
 
-fn task_body(sh: &Arc<Shared>, t: &TaskSpec) -> impl FnOnce() -> u64 + Send + 'static {
+/// Owned by every task closure.  A closure that is destroyed WITHOUT having run (abandoned at shutdown, or refused by a
+/// scheduler that is already shut down) runs user code in its destructor: it schedules "clean-up work" on the same
+/// scheduler, in the task's own priority class.  That is legal at any time; after shutdown the spawn is simply refused.
+struct DropSpawn {
+    sched: Scheduler,
+    id: u64,
+    urgent: bool,
+    ran: bool,
+}
+
+impl Drop for DropSpawn {
+    fn drop(&mut self) {
+        if self.ran {
+            return;
+        }
+        let (s, urgent) = (self.sched.clone(), self.urgent);
+        let r = vrt::catch(move || {
+            if urgent {
+                s.spawn_urgent_and_forget(|| {});
+            } else {
+                s.spawn_and_forget(|| {});
+            }
+        });
+        log(json!({"ev":"dropspawn","t":self.id,"ok":r.is_ok()}));
+    }
+}
+
+fn task_body(sched_: &Scheduler, sh: &Arc<Shared>, t: &TaskSpec) -> impl FnOnce() -> u64 + Send + 'static {
     let sh = Arc::clone(sh);
     let t = t.clone();
+    let guard = DropSpawn { sched: sched_.clone(), id: t.id, urgent: t.urgent, ran: false };
     move || {
+        let mut guard = guard;      // the whole guard lives in the closure (not just the field assigned below)
+        guard.ran = true;
         let w = WORKER.get().map_or(4095, |(p, i)| wid(p, i));
         let c = observed_cpu(&sh.hw, sh.real);
         let pinned = WORKER.get().map_or(4095, |(p, _)| p);
@@ -230,7 +260,7 @@ fn task_body(sh: &Arc<Shared>, t: &TaskSpec) -> impl FnOnce() -> u64 + Send + 's
 
 fn do_spawn(sched_: &Scheduler, sh: &Arc<Shared>, t: &TaskSpec, proc: u64) -> Option<JoinHandle<u64>> {
     log(json!({"ev":"call","t":t.id,"p":proc,"h":!t.forget,"x":t.panics,"urgent":t.urgent}));
-    let body = task_body(sh, t);
+    let body = task_body(sched_, sh, t);
     match (t.forget, t.urgent) {
         (false, false) => Some(sched_.spawn(body)),
         (false, true) => Some(sched_.spawn_urgent(body)),
